@@ -470,6 +470,7 @@ func (doc *T) derefResponseBodies(es ResponseBodies, refNameResolver RefNameReso
 func (doc *T) derefParameter(p Parameter, refNameResolver RefNameResolver, parentIsExternal bool) {
 	isExternal := doc.addSchemaToSpec(p.Schema, refNameResolver, parentIsExternal)
 	doc.derefContent(p.Content, refNameResolver, parentIsExternal)
+	doc.derefExamples(p.Examples, refNameResolver, parentIsExternal)
 	if p.Schema != nil {
 		doc.derefSchema(p.Schema.Value, refNameResolver, isExternal || parentIsExternal)
 	}
